@@ -2,7 +2,9 @@ package rewriter
 
 import (
 	"go/ast"
+	"go/types"
 	"log"
+	"strings"
 
 	"github.com/goghcrow/go-ast-matcher"
 	"github.com/goghcrow/go-imports"
@@ -254,13 +256,52 @@ func (o *optimizer) etaReduction() {
 		return true
 	}
 
+	// The reduced closure evaluates `fun` once, where the literal stood, instead of at every
+	// call, and uses it as a value. That is only the same thing for declared functions
+	// (optionally package-qualified / explicitly instantiated) and for method values of the
+	// iterator temporaries generated by the rewriter, which are never reassigned.
+	// Function variables, method values of user variables, builtins, conversions and
+	// uninstantiated generic functions are left alone.
+	var stableCallee func(ctx astmatcher.Ctx, fun ast.Expr, instantiated bool) bool
+	stableCallee = func(ctx astmatcher.Ctx, fun ast.Expr, instantiated bool) bool {
+		declared := func(id *ast.Ident) bool {
+			fn, ok := ctx.ObjectOf(id).(*types.Func)
+			if !ok {
+				return false
+			}
+			sig, _ := fn.Type().(*types.Signature)
+			return sig != nil && (instantiated || sig.TypeParams().Len() == 0)
+		}
+		switch f := fun.(type) {
+		case *ast.Ident:
+			return declared(f)
+		case *ast.SelectorExpr:
+			x, ok := f.X.(*ast.Ident)
+			if !ok {
+				return false
+			}
+			switch ctx.ObjectOf(x).(type) {
+			case *types.PkgName:
+				return declared(f.Sel)
+			case *types.Var:
+				return strings.HasPrefix(x.Name, cstIterVar)
+			}
+		case *ast.IndexExpr:
+			return !instantiated && stableCallee(ctx, f.X, true)
+		case *ast.IndexListExpr:
+			return !instantiated && stableCallee(ctx, f.X, true)
+		}
+		return false
+	}
+
 	o.m.Match(
 		pattern,
 		func(c *astmatcher.Cursor, ctx astmatcher.Ctx) {
 			params := ctx.Binds["params"].(*ast.FieldList).List
 			args := ctx.Binds["args"].(ExprsNode)
-			if matched(ctx, params, args) {
-				c.Replace(ctx.Binds["fun"])
+			fun, _ := ctx.Binds["fun"].(ast.Expr)
+			if matched(ctx, params, args) && fun != nil && stableCallee(ctx, fun, false) {
+				c.Replace(fun)
 			}
 		},
 	)
